@@ -208,6 +208,34 @@ func genFMA(t *rapid.T, specials bool) C03Case {
 			if prod.Exp <= model.MaxExp && prod.Exp >= model.MinExp {
 				// an in-range product is really aligned with the addend: keep them within gapLimit digits
 				c.U.E = clampExp(prod.Exp + int64(rapid.IntRange(-int(gapLimit()), int(gapLimit())).Draw(t, "re.ugap")))
+			} else {
+				// A product beyond the range is aligned with the addend as well (the library adds with both exponents
+				// shifted), at the cost of their distance in digits: keep the addend within gapLimit digits of the
+				// product when the product is that close to the range, and otherwise at least 2^32-1 digits away from it
+				// (on the underflow side only a sticky bit remains of the product then; on the overflow side the addend
+				// cannot bring the sum back).
+				beyond := prod.Exp - model.MaxExp
+				if prod.Exp < model.MinExp {
+					beyond = model.MinExp - prod.Exp
+				}
+				// (far enough always exists inside the range: u.exp <= e - 2^32 on the overflow side, u.exp >= e + 2^32 - 1 on
+				// the underflow side, where e is the product's exponent, at least one beyond the end)
+				r := int64(rapid.IntRange(0, 60).Draw(t, "re.ufar"))
+				far := prod.Exp - 1<<32 - r
+				if far < model.MinExp {
+					far = model.MinExp
+				}
+				if prod.Exp < model.MinExp {
+					far = prod.Exp + 1<<32 - 1 + r
+					if far > model.MaxExp {
+						far = model.MaxExp
+					}
+				}
+				if beyond <= gapLimit() && rapid.IntRange(0, 2).Draw(t, "re.unear") > 0 {
+					c.U.E = clampExp(prod.Exp + int64(rapid.IntRange(-int(gapLimit()), int(gapLimit())).Draw(t, "re.ugap2")))
+				} else {
+					c.U.E = far
+				}
 			}
 		}
 		c.Alias = rapid.SampledFrom([]string{"", "", "", "x", "u", "y"}).Draw(t, "alias")
@@ -405,7 +433,7 @@ func genFMA(t *rapid.T, specials bool) C03Case {
 
 func genC03(t *rapid.T) C03Case {
 	c := genFMA(t, true)
-	c.Zone = fmaProductOutOfRange(c)
+	c.Zone = false // (the zone of former finding F-03c is checked against the fused result like everything else)
 	return c
 }
 
@@ -493,8 +521,9 @@ func checkC03(c C03Case, o *h.Obs) *h.Fail {
 	z, x, y, u, alias := fmaVars(c)
 	nan := h.CatchNaN(func() { z.FMA(x, y, u) })
 	got := h.Read(z)
-	if c.Zone {
-		return checkFMAZone(c, o, want, nan, got, alias)
+	if fmaProductOutOfRange(c) {
+		o.Label("product-exponent-out-of-range-with-finite-addend")
+		o.NonTrivial()
 	}
 
 	special := c.X.F != "f" || c.Y.F != "f" || c.U.F != "f"
